@@ -233,9 +233,19 @@ Definition mul_arm_cst (op : expr -> expr) (q : Q) (m : mono) : expr :=
   | [] => scale (q, m_lin m) one
   | p => scale (q, m_lin m) (op (Cst 1 p))
   end.
-(* the same arm for expr = Mul q m v : vectors = Pow factors and v, never empty *)
-Definition mul_arm (op : expr -> expr) (q : Q) (m : mono) (v : expr) : expr :=
-  scale (q, m_lin m) (op (scale (1, m_pow m) v)).
+Definition nonnil {A} (l : list A) : bool := match l with [] => false | _ => true end.
+(* `if coeffs:` for expr = Mul q m v : a number other than 1, or a Constant, among the args *)
+Definition has_coeffs (q : Q) (m : mono) : bool := negb (is_one q) || nonnil (m_lin m).
+(* the same arm for expr = Mul q m v : vectors = Pow factors and v, never empty.
+   Since 93cc443: `b = cls(Mul( *vectors ))` (evaluated) when a coefficient was pulled out,
+   `cls(Mul( *vectors ), evaluate=False)` otherwise.  [ev] is the evaluated cls(v).  When a Pow
+   factor remains, Mul( *vectors ) is a product without coefficient and both variants give the
+   same unevaluated node. *)
+Definition mul_arm (op : expr -> expr) (ev : expr) (q : Q) (m : mono) (v : expr) : expr :=
+  match m_pow m with
+  | [] => scale (q, m_lin m) (if has_coeffs q m then ev else op v)
+  | p => scale (q, m_lin m) (op (scale (1, p) v))
+  end.
 
 (* ExteriorDerivative.eval *)
 Fixpoint mk_d (e : expr) : expr :=
@@ -247,7 +257,7 @@ Fixpoint mk_d (e : expr) : expr :=
       else D e                                             (* a single Pow: default arm *)
   | Form _ k n => if Nat.eqb k n then zero else D e        (* index == dim *)
   | Add ts => sadd (map mk_d ts)
-  | Mul q m v => mul_arm D q m v
+  | Mul q m v => mul_arm D (mk_d v) q m v
   | _ => D e
   end.
 
@@ -261,7 +271,7 @@ Fixpoint mk_delta (e : expr) : expr :=
       else Delta e
   | Form _ k n => if Nat.eqb k 0 then zero else Delta e    (* index == 0 *)
   | Add ts => sadd (map mk_delta ts)
-  | Mul q m v => mul_arm Delta q m v
+  | Mul q m v => mul_arm Delta (mk_delta v) q m v
   | _ => Delta e
   end.
 
@@ -274,7 +284,7 @@ Fixpoint mk_hodge (e : expr) : expr :=
       else if is_mul_cst q m then mul_arm_cst Hodge q m
       else Hodge e
   | Add ts => sadd (map mk_hodge ts)
-  | Mul q m v => mul_arm Hodge q m v
+  | Mul q m v => mul_arm Hodge (mk_hodge v) q m v
   | _ => Hodge e                                           (* includes hodge(hodge(non-atom)) *)
   end.
 
@@ -289,23 +299,59 @@ Definition split_coeff (e : expr) : (Q * mono) * expr :=
       else ((1, []), e)
   | _ => ((1, []), e)
   end.
-Definition wedge_core (l r : expr) : expr :=
+(* `x == 0` for a value of the fragment *)
+Definition eq0 (e : expr) : bool := match e with Cst q _ => is_zero q | _ => false end.
+(* `extracted = extracted or bool(coeffs)` (since 1a620f5): the operand is a Mul among whose
+   args there is a number or a Constant *)
+Definition extracted (e : expr) : bool :=
+  match e with
+  | Mul q m _ => has_coeffs q m
+  | Cst q m => is_mul_cst q m && has_coeffs q m
+  | _ => false
+  end.
+
+Fixpoint esize (e : expr) : nat :=
+  match e with
+  | Form _ _ _ => 1%nat
+  | D a | Delta a | Hodge a => S (esize a)
+  | Wedge a b => S (esize a + esize b)%nat
+  | Add ts => S ((fix go (l : list expr) : nat := match l with [] => O | t :: r => (esize t + go r)%nat end) ts)
+  | Cst _ _ => 1%nat
+  | Mul _ _ v => S (esize v)
+  end.
+
+(* ExteriorProduct.eval (since 757e1d0 / 93cc443):
+     if left == 0 or right == 0: return 0
+     if isinstance(left, Add): distribute        if isinstance(right, Add): distribute
+     pull the coefficients of both operands into alpha; left, right := the remaining factors
+     if extracted: return alpha*cls(left, right)       (evaluated again whenever a coefficient was pulled out)
+     return cls(left, right, evaluate=False)
+   The re-entry is not structural (left may become a product without coefficient), so the
+   recursion is driven by a counter; [mk_wedge] supplies more than the depth that can be
+   reached, and the out-of-fuel answer is the unevaluated product (never produced by mk_wedge
+   on the generated inputs: the correspondence run compares every value). *)
+(* the part after both Add arms; [rec] is the evaluating constructor cls(left, right) *)
+Definition wedge_core (rec : expr -> expr -> expr) (l r : expr) : expr :=
   let (a, l') := split_coeff l in
   let (b, r') := split_coeff r in
-  scale (cmul a b) (Wedge l' r').
+  let alpha := cmul a b in
+  if (extracted l || extracted r)%bool then scale alpha (rec l' r') else Wedge l' r'.
 
-(* left is not an Add: `if isinstance(right, Add)` *)
-Fixpoint wedge_r (l r : expr) {struct r} : expr :=
-  match r with
-  | Add rs => sadd (map (wedge_r l) rs)
-  | _ => wedge_core l r
+Fixpoint wedge_fuel (n : nat) (l r : expr) : expr :=
+  match n with
+  | O => Wedge l r
+  | S n' =>
+      if (eq0 l || eq0 r)%bool then zero else
+      match l with
+      | Add ls => sadd (map (fun i => wedge_fuel n' i r) ls)
+      | _ =>
+          match r with
+          | Add rs => sadd (map (fun i => wedge_fuel n' l i) rs)
+          | _ => wedge_core (wedge_fuel n') l r
+          end
+      end
   end.
-(* `if isinstance(left, Add)` comes first *)
-Fixpoint mk_wedge (l r : expr) {struct l} : expr :=
-  match l with
-  | Add ls => sadd (map (fun i => mk_wedge i r) ls)
-  | _ => wedge_r l r
-  end.
+Definition mk_wedge (l r : expr) : expr := wedge_fuel (2 * (esize l + esize r) + 4)%nat l r.
 
 (* ------------------------------------------------------------------ infere_type *)
 Inductive ires :=
@@ -387,7 +433,8 @@ Fixpoint infer (e : expr) : ires :=
       end
   | Add ts => add_res (map infer ts)
   | Cst _ _ => INone
-  | Mul _ _ _ => INone
+  | Mul _ m v =>                      (* since c3f9f51: len(vectors) == 1 -> infere_type(vectors[0]) *)
+      match m_pow m with [] => infer v | _ => INone end
   end.
 
 (* ------------------------------------------------------------------ user-level programs *)
